@@ -16,6 +16,7 @@ interpretation `run : F → List V → Out V` of the operators (including failin
 import NoulithModel.Lemmas.C03Arm
 import NoulithModel.Lemmas.C03Climb
 import NoulithModel.Generated.C03Tables
+import NoulithModel.Spec.ChainTables
 
 namespace Noulith.Chain.C03
 open Noulith Noulith.Chain Noulith.Chain.Tree
@@ -459,19 +460,6 @@ theorem constants_agree :
       Gen.PLUS_PRECEDENCE, Gen.MULTIPLY_PRECEDENCE, Gen.EXPONENT_PRECEDENCE, Gen.INDEX_PRECEDENCE,
       Gen.DOT_PRECEDENCE) = (0, 1, 2, 3, 4, 5, 6, 7, 8) ∧ charDefault = 8 := ⟨rfl, rfl⟩
 
-/-- the README's table ("look up each character, take the loosest") -/
-def readmeChar (c : Char) : Int :=
-  if c.isAlphanum || c == '_' then 0
-  else if c == '=' || c == '<' || c == '>' then 1
-  else if c == '$' then 2
-  else if c == '|' then 3
-  else if c == '+' || c == '-' || c == '~' then 4
-  else if c == '*' || c == '/' || c == '%' || c == '&' then 5
-  else if c == '^' then 6
-  else if c == '!' || c == '?' then 7
-  else 8
-def readmePrecedence (name : String) : Int := reduceMin (name.toList.map readmeChar)
-
 def isAsciiName (s : String) : Bool := s.toList.all (fun c => c.toNat < 128)
 
 /-- the effective precedence of a registration -/
@@ -480,10 +468,22 @@ def effective (r : Reg) : Int :=
   | some e => e
   | none => defaultPrecedence charTable charDefault r.name
 
-/-- every ASCII-named builtin registered without an explicit precedence gets the README rule -/
-theorem default_precedence_is_readme_rule :
-    (registrations.filter (fun r => r.explicit.isNone && isAsciiName r.name)).all
-      (fun r => effective r == readmePrecedence r.name) = true := by decide +kernel
+/-- **every registration agrees with the hand-written Spec tables** (README character rule with
+the `<<`/`>>` exception, associativity, `builtin_name` of aliases) — including the rows behind
+`#[cfg(feature …)]` -/
+theorem registrations_match_spec :
+    registrations.all (fun r =>
+      effective r == SpecTables.specPrecedence r.name &&
+      (r.rassoc == SpecTables.specRassoc r.name) &&
+      (r.bname == SpecTables.specBuiltinName r.name)) = true := by decide +kernel
+
+/-- the chain-compatibility table read from the `try_chain` bodies is the Spec's -/
+theorem chain_table_matches_spec :
+    chainTable =
+      registrations.filterMap (fun r =>
+        if SpecTables.comparisonNames.contains r.name then some (r.name, true, [])
+        else if SpecTables.specAccepts r.name != [] then some (r.name, false, SpecTables.specAccepts r.name)
+        else none) := by decide +kernel
 
 /-- the non-ASCII names and their precedences (the README does not list them) -/
 theorem unicode_names :
